@@ -625,3 +625,141 @@ Proof.
   intro x. pose proof (sem_exprs_perm ln e _ _ (hdr_perm ps ret) x) as Hp.
   rewrite sem_exprs_app, in_app_iff in Hp. rewrite sem_oexpr_eq. rewrite !in_app_iff. tauto.
 Qed.
+
+Lemma PostS_then_bind : forall exp l L' acc accs ex s e tr s1 e1 r1 a1 s2 e2 a2,
+  PostS exp l L' acc accs ex s e tr s1 e1 r1 a1 ->
+  (forall exp1, Inv2 exp1 l L' (acc ++ a1) accs ex s1 e1 (tr ++ r1) ->
+                Inv2 exp1 l L' ((acc ++ a1) ++ a2) accs ex s2 e2 (tr ++ r1) /\ next_id s2 = next_id s1) ->
+  PostS exp l L' acc accs ex s e tr s2 e2 r1 (a1 ++ a2).
+Proof.
+  intros. rewrite <- (app_nil_r r1). eapply PostS_seq. exact H. intros exp1 I1. destruct (H0 exp1 I1). apply PostS_bind; auto.
+Qed.
+
+Lemma NS_incl_l : forall a b (B : list name), incl (a ++ b) B -> incl a B.
+Proof. intros a b B H y Hy. apply H. apply in_app_iff. auto. Qed.
+Lemma NS_incl_r : forall a b (B : list name), incl (a ++ b) B -> incl b B.
+Proof. intros a b B H y Hy. apply H. apply in_app_iff. auto. Qed.
+
+Lemma stmt_inv : forall x, PS2 x.
+Proof.
+  induction x using stmt_ind'; try (intros Hs; discriminate); try rename e into e0;
+    intros Hs exp l L' acc accs ex s e tr HI Hin e' rds Esem; unfold NS in *.
+  - (* SExpr *)
+    cbn in Esem. injection Esem as <- <-. cbn [s2_stmt vstmt bsrcs map] in *.
+    apply (expr_ln e0 ln); auto.
+  - (* SAssign *)
+    cbn [s2_stmt] in Hs. apply andb_true_iff in Hs as [H1 H2].
+    rewrite sem_stmt_assign in Esem. cbv zeta in Esem. cbn [vstmt bsrcs] in *. rewrite tgo_eq, map_fst_others in *.
+    destruct (expr_ln v ln _ _ _ _ _ _ _ _ _ H1 HI) as (P1 & Ln1). cbv zeta in P1, Ln1.
+    assert (Et : fold_left (sem_target_step ln) ts (e, []) = (ebind_all (others (flat_map target_names ts)) e, [])).
+    { destruct P1 as (expa & _ & Ia & _). rewrite app_nil_r in Ia.
+      destruct (targets_inv ln ts _ _ _ _ _ _ _ _ _ [] Ia H2 Hin) as (E & _). exact E. }
+    rewrite Et in Esem. injection Esem as <- <-. rewrite app_nil_r.
+    change (flat_map target_names ts) with ([] ++ flat_map target_names ts) at 2.
+    eapply PostS_then_bind. exact P1. intros exp1 I1.
+    destruct (targets_inv ln ts _ _ _ _ _ _ _ _ _ [] I1 H2) as (_ & I2 & N2 & _).
+    { exact Hin. }
+    cbv zeta in I2, N2. split. exact I2. exact N2.
+  - (* SAugAssign *)
+    cbn [s2_stmt] in Hs. apply andb_true_iff in Hs as [H12 H3]. apply andb_true_iff in H12 as [H1 H2].
+    apply is_nil_true in H1. subst a. apply not_star_neq in H2.
+    cbn in Esem. injection Esem as <- <-. cbn [vstmt bsrcs map fst] in *.
+    change [n] with ([] ++ [n]).
+    change ((ln, n, resolve n e) :: sem_expr ln e v) with ([(ln, n, resolve n e)] ++ sem_expr ln e v).
+    eapply PostS_then_bind.
+    2:{ intros exp2 I2.
+        destruct (store_name_inv _ _ _ _ _ _ _ _ _ n BOther I2 H2 (Hin n (or_introl eq_refl))) as (I3 & N3 & _).
+        cbv zeta in I3, N3. split. exact I3. exact N3. }
+    change (@nil name) with (@nil name ++ []).
+    eapply PostS_seq.
+    { destruct (load_inv _ _ _ _ _ _ _ _ _ n [] (Inv2_with_ln _ _ _ _ _ _ _ _ _ ln HI)) as (exp1 & X1 & I1 & Ln1 & N1 & _).
+      cbv zeta in I1, Ln1, N1. exists exp1. rewrite app_nil_r. split. exact X1. split. exact I1. exact N1. }
+    intros exp1 I1.
+    assert (Ln1 : lineno (load (with_ln s ln) (stack_of (l :: L')) [n]) = ln).
+    { destruct (load_inv _ _ _ _ _ _ _ _ _ n [] (Inv2_with_ln _ _ _ _ _ _ _ _ _ ln HI)) as (? & _ & _ & Lnx & _). exact Lnx. }
+    destruct (expr_cur v _ _ _ _ _ _ _ _ _ H3 I1) as (P2 & _). cbv zeta in P2. rewrite Ln1 in P2. exact P2.
+  - (* SImport *)
+    cbn [s2_stmt] in Hs. cbn in Esem. injection Esem as <- <-. cbn [vstmt bsrcs] in *.
+    destruct (import_items_inv ln items _ _ _ _ _ _ _ _ _ (Inv2_with_ln _ _ _ _ _ _ _ _ _ ln HI) Hs Hin) as (I1 & N1).
+    cbv zeta in I1, N1. apply PostS_bind; auto.
+  - (* SImportFrom *)
+    cbn [s2_stmt] in Hs. cbn in Esem. injection Esem as <- <-. cbn [vstmt bsrcs] in *.
+    destruct (from_items_inv ln m items _ _ _ _ _ _ _ _ _ (Inv2_with_ln _ _ _ _ _ _ _ _ _ ln HI) Hs Hin) as (I1 & N1).
+    cbv zeta in I1, N1. apply PostS_bind; auto.
+  - (* SDef *)
+    apply (def_inv ln nm decos ps ret body (block_inv body H) Hs _ _ _ _ _ _ _ _ _ HI Hin _ _ Esem).
+  - (* SFor *)
+    cbn [s2_stmt] in Hs. rewrite !s2_blk_fix in Hs.
+    apply andb_true_iff in Hs as [H123 H4]. apply andb_true_iff in H123 as [H12 H3]. apply andb_true_iff in H12 as [H1 H2].
+    rewrite vstmt_for. rewrite sem_stmt_for in Esem. cbv zeta in Esem.
+    cbn [bsrcs] in *. rewrite !bsrcs_blk_fix in *. rewrite !map_app, map_fst_others in *.
+    fold (binds_block false b) (binds_block false o) in *.
+    assert (Et : exec_target_env ln e t = (ebind_all (others (target_names t)) e, [])).
+    { unfold exec_target_env. rewrite exec_target_s1 by exact H1. reflexivity. }
+    rewrite Et in Esem.
+    destruct (sem_block b (ebind_all (others (target_names t)) e)) as [e2 r2] eqn:E2.
+    destruct (sem_block o e2) as [e3 r3] eqn:E3. injection Esem as <- <-.
+    change (target_names t ++ binds_block false b ++ binds_block false o)
+      with (([] ++ target_names t) ++ binds_block false b ++ binds_block false o).
+    eapply PostS_seq.
+    { eapply PostS_then_bind. apply (expr_ln it ln); eauto. intros exp1 I1.
+      destruct (target_inv t ln _ _ _ _ _ _ _ _ _ I1 H1) as (_ & I2 & N2 & _).
+      { exact (NS_incl_l _ _ _ Hin). }
+      cbv zeta in I2, N2. split. exact I2. exact N2. }
+    intros exp2 I2.
+    eapply PostS_seq.
+    { apply (block_inv b H H3 _ _ _ _ _ _ _ _ _ I2 (NS_incl_l _ _ _ (NS_incl_r _ _ _ Hin)) _ _ E2). }
+    intros exp3 I3.
+    apply (block_inv o H0 H4 _ _ _ _ _ _ _ _ _ I3 (NS_incl_r _ _ _ (NS_incl_r _ _ _ Hin)) _ _ E3).
+  - (* SWhile *)
+    cbn [s2_stmt] in Hs. rewrite !s2_blk_fix in Hs.
+    apply andb_true_iff in Hs as [H12 H3]. apply andb_true_iff in H12 as [H1 H2]. apply is_nil_true in H3. subst o.
+    rewrite vstmt_while. rewrite sem_stmt_while in Esem. cbv zeta in Esem.
+    cbn [bsrcs] in *. rewrite !bsrcs_blk_fix in *. rewrite app_nil_r in *. fold (binds_block false b) in *.
+    destruct (sem_block b e) as [e2 r2] eqn:E2. injection Esem as <- <-.
+    change (binds_block false b) with ([] ++ binds_block false b). unfold vblock at 1. cbn [fold_left].
+    eapply PostS_seq. apply (expr_ln t ln); eauto. intros exp1 I1.
+    apply (block_inv b H H2 _ _ _ _ _ _ _ _ _ I1 Hin _ _ E2).
+  - (* SIf *)
+    cbn [s2_stmt] in Hs. rewrite !s2_blk_fix in Hs.
+    apply andb_true_iff in Hs as [H12 H3]. apply andb_true_iff in H12 as [H1 H2]. apply is_nil_true in H3. subst o.
+    rewrite vstmt_if. rewrite sem_stmt_if in Esem. cbv zeta in Esem.
+    cbn [bsrcs] in *. rewrite !bsrcs_blk_fix in *. rewrite app_nil_r in *. fold (binds_block false b) in *.
+    destruct (sem_block b e) as [e2 r2] eqn:E2. injection Esem as <- <-.
+    change (binds_block false b) with ([] ++ binds_block false b). unfold vblock at 1. cbn [fold_left].
+    eapply PostS_seq. apply (expr_ln t ln); eauto. intros exp1 I1.
+    apply (block_inv b H H2 _ _ _ _ _ _ _ _ _ I1 Hin _ _ E2).
+  - (* SWith *)
+    cbn [s2_stmt] in Hs. rewrite !s2_blk_fix in Hs. apply andb_true_iff in Hs as [H1 H2].
+    rewrite vstmt_with. rewrite sem_stmt_with in Esem.
+    cbn [bsrcs] in *. rewrite !bsrcs_blk_fix in *. rewrite map_app, map_fst_others in *. fold (binds_block false b) in *.
+    change (flat_map (fun it : expr * option target => match snd it with Some t => target_names t | None => [] end) items)
+      with (flat_map wnames items) in *.
+    destruct (with_items_inv ln items _ _ _ _ _ _ _ _ _ [] (Inv2_with_ln _ _ _ _ _ _ _ _ _ ln HI) eq_refl H1 (NS_incl_l _ _ _ Hin))
+      as (e1 & r1 & E1 & P1).
+    cbv zeta in P1. rewrite E1 in Esem. cbn [app] in Esem.
+    destruct (sem_block b e1) as [e2 r2] eqn:E2. injection Esem as <- <-.
+    eapply PostS_seq.
+    { destruct P1 as (exp1 & X1 & I1 & N1). exists exp1. split. exact X1. split. exact I1. exact N1. }
+    intros exp1 I1. apply (block_inv b H H2 _ _ _ _ _ _ _ _ _ I1 (NS_incl_r _ _ _ Hin) _ _ E2).
+  - (* STry *)
+    cbn [s2_stmt] in Hs. rewrite !s2_blk_fix in Hs.
+    apply andb_true_iff in Hs as [Habc Hd]. apply andb_true_iff in Habc as [Hab Hc]. apply andb_true_iff in Hab as [Ha Hb].
+    apply is_nil_true in Hb. subst hs.
+    rewrite vstmt_try_nohandler. rewrite sem_stmt_try in Esem.
+    cbn [bsrcs] in *. rewrite !bsrcs_blk_fix in *. cbn [app] in *. rewrite !map_app in *.
+    fold (binds_block false b) (binds_block false o) (binds_block false f) in *.
+    destruct (sem_block b e) as [e1 r1] eqn:E1. destruct (sem_block o e1) as [e2 r2] eqn:E2.
+    destruct (sem_block f e2) as [e3 r3] eqn:E3. injection Esem as <- <-.
+    eapply PostS_seq.
+    { destruct (block_inv b H Ha _ _ _ _ _ _ _ _ _ (Inv2_with_ln _ _ _ _ _ _ _ _ _ ln HI) (NS_incl_l _ _ _ Hin) _ _ E1)
+        as (exp1 & X1 & I1 & N1). exists exp1. split. exact X1. split. exact I1. exact N1. }
+    intros exp1 I1. eapply PostS_seq.
+    { apply (block_inv o H1 Hc _ _ _ _ _ _ _ _ _ I1 (NS_incl_l _ _ _ (NS_incl_r _ _ _ Hin)) _ _ E2). }
+    intros exp2 I2.
+    apply (block_inv f H2 Hd _ _ _ _ _ _ _ _ _ I2 (NS_incl_r _ _ _ (NS_incl_r _ _ _ Hin)) _ _ E3).
+  - (* SPass *)
+    cbn in Esem. injection Esem as <- <-. cbn [vstmt bsrcs map].
+    destruct (PostS_refl _ _ _ _ _ _ _ _ _ (Inv2_with_ln _ _ _ _ _ _ _ _ _ ln HI)) as (exp1 & X1 & I1 & N1).
+    exists exp1. split. exact X1. split. exact I1. exact N1.
+Qed.
